@@ -124,7 +124,8 @@ Section OneOrder.
      between what it had received before the fatal event and what the model
      (any enumeration order) could have delivered during it *)
   Definition agree_quirk (mq moff : cstate) : bool :=
-    let kfatal := Nat.pred (answered_count mq) in
+    (* index of the fatal event = number of prefixes after which the loop is still Running *)
+    let kfatal := length (filter (fun n => status_eqb (s_status _ _ (crun (c_q k) (firstn n h))) Running) (seq 1 (length h))) in
     let before := crun (c_q k) (firstn kfatal h) in
     status_eqb (o_status o) (s_status _ _ mq) &&
     match s_status _ _ mq with
@@ -144,7 +145,7 @@ Section OneOrder.
      1  = the implementation violates the specification here and no enabled quirk explains it
      2  = the implementation satisfies the specification but the model (with the committed quirks) predicted a failure
      3  = the implementation violates the specification, an enabled quirk is reachable, but the failure is not the modelled one
-     10 + b = known defect reproduced; b = 1 cancel-from-loop, 2 double-cancel, 3 both reachable *)
+     10 + b = known defect reproduced; b = bit mask of the reachable quirks: 1 cancel-from-loop, 2 double-cancel, 4 update-panic *)
   Definition classify1 : Z :=
     let mq := crun (c_q k) h in
     let moff := crun quirks17_off h in
@@ -154,6 +155,7 @@ Section OneOrder.
     else if agree_quirk mq moff then
       10 + (if q_cancel_from_loop (c_q k) && negb (obs_eqb (crun only_cancel_from_loop h) moff) then 1 else 0)
          + (if q_double_cancel_nil (c_q k) && negb (obs_eqb (crun only_double_cancel h) moff) then 2 else 0)
+         + (if q_update_panic_kills (c_q k) && negb (obs_eqb (crun only_update_panic h) moff) then 4 else 0)
     else 3.
 End OneOrder.
 
